@@ -39,6 +39,10 @@ LEVEL_TEXT = (
     "row every reader tests; (R4) interior sets are set complements of the "
     "boundary sets. Uniqueness/ordering delivered by np.unique and "
     "statements about concrete meshes are not decided.")
+LEVEL_TEXT += (
+    " Added after the seeding phase: (R5) no product of two size-dependent "
+    "index quantities in the int32 arithmetic of the connectivity tables "
+    "without widening.")
 LEVEL_NOTE = ("Trusted: numpy unique/hstack/reshape/tile/flatten/sort "
               "semantics; scipy coo_matrix((data, (row, col))).")
 EXPLANATION = "Layout-typed symbolic runs + exact polytope audit."
